@@ -4,6 +4,8 @@ import (
 	"bytes"
 	"fmt"
 	"math/rand"
+	"os"
+	"strconv"
 	"strings"
 	"syscall"
 	"verif/runner"
@@ -321,9 +323,79 @@ func checkC08(c *core.Ctx) {
 		}
 	})
 
+	// sizes a MIDI file cannot encode (thorough tier only: the documents have 0.3 to 4.5 GB): a meta text of 2^28
+	// bytes needs a 5-byte length, a track chunk beyond 4 GiB does not fit its 32-bit length field. A successful run
+	// would necessarily have written a malformed file, so these documents must be refused; one byte less is fine.
+	if !c.Quick() {
+		c.StreamSeq("sizes", 3, func(i int, _ *rand.Rand) {
+			free := memAvailableMB()
+			text := func(n int) []byte {
+				return append(append([]byte("- values: [1]\n  meta:\n    txt: \""), bytes.Repeat([]byte("a"), n)...), []byte("\"\n")...)
+			}
+			var doc []byte
+			var what string
+			mustRefuse := true
+			switch i {
+			case 0:
+				what, doc, mustRefuse = "a text of 2^28-1 bytes", text(1<<28-1), false
+			case 1:
+				what, doc = "a text of 2^28 bytes", text(1<<28)
+			default:
+				if free < 40000 {
+					c.Extra("sizes_chunk_probe", fmt.Sprintf("skipped: %d MB of memory available, the probe needs about 25 GB", free))
+					return
+				}
+				what = "17 texts of 2^28-1 bytes on one track (4.5 GB chunk)"
+				doc = append([]byte("- values: [1]\n  meta: &m\n    txt: \""), bytes.Repeat([]byte("a"), 1<<28-1)...)
+				doc = append(doc, []byte("\"\n")...)
+				for k := 0; k < 16; k++ {
+					doc = append(doc, []byte("- values: [1]\n  meta: *m\n")...)
+				}
+			}
+			if free < 6000 {
+				c.Extra("sizes_probe", fmt.Sprintf("skipped: only %d MB of memory available", free))
+				return
+			}
+			res := c.Crd.Run(runner.Opt{Stdin: doc, CPUSec: 900, Redirect: ">/dev/null"}, "write")
+			c.Eval(1)
+			if infra(c, res) {
+				return
+			}
+			det := map[string]any{"document_bytes": len(doc), "exit": res.Exit, "signal": res.Signal, "cpu_ms": res.CPUms, "stderr": short(string(res.Stderr), 300)}
+			if a := abnormal(res); a != "" {
+				c.Violate("sizes", i, "sizes:abnormal", fmt.Sprintf("crd write on %s %s", what, a), det)
+				return
+			}
+			if mustRefuse && res.OK() {
+				c.Violate("sizes", i, fmt.Sprintf("sizes:accepted:%d", i), fmt.Sprintf("crd write reports success on %s, which no MIDI file can encode", what), det)
+				return
+			}
+			c.Seen("size_probes", fmt.Sprintf("%s -> exit %d", what, res.Exit))
+			c.Nontrivial(fmt.Sprintf("sizes%d", i))
+		})
+	}
+
 	c.Stream("boundary", len(probes), func(i int, r *rand.Rand) {
 		pr := probes[i]
 		judgeWellFormed(c, "boundary", i, pr.p, pr.f, writeOpts{}, "boundary:"+pr.name)
 		c.Seen("boundary_probes", pr.name)
 	})
+}
+
+// memAvailableMB reads MemAvailable from /proc/meminfo (0 when unknown).
+func memAvailableMB() int {
+	b, err := os.ReadFile("/proc/meminfo")
+	if err != nil {
+		return 0
+	}
+	for _, l := range strings.Split(string(b), "\n") {
+		if strings.HasPrefix(l, "MemAvailable:") {
+			f := strings.Fields(l)
+			if len(f) >= 2 {
+				n, _ := strconv.Atoi(f[1])
+				return n / 1024
+			}
+		}
+	}
+	return 0
 }
